@@ -74,7 +74,7 @@ func c36Finalize(run *ev.Run) {
 	run.Bounds["finalize.rounds"] = R
 	run.Bounds["finalize.trees"] = len(c36Trees(R))
 	run.Bounds["finalize.round_lists"] = "all blocks listed as notarized; each single block missing from its round's list"
-	run.Bounds["finalize.schedules"] = fmt.Sprintf("finalizeRound(1..%d) ascending: each once; for the full lists also each twice and each single round skipped", R+3)
+	run.Bounds["finalize.schedules"] = fmt.Sprintf("finalizeRound(1..%d) ascending: each once; for the full lists also each twice and each single round skipped (quick tier: only under ahead=5)", R+3)
 	run.Bounds["finalize.lfb_ticket_ahead"] = aheads
 	type job struct{ ahead, shard int }
 	var jobs []job
@@ -95,6 +95,7 @@ func c36Finalize(run *ev.Run) {
 			defer cancel()
 			cmd := exec.CommandContext(ctx, bin, "c36-finalize-worker", strconv.Itoa(R), strconv.Itoa(j.ahead), strconv.Itoa(j.shard), strconv.Itoa(shards))
 			cmd.Stderr = os.Stderr
+			cmd.Env = append(os.Environ(), "VERIF_TIER="+run.Tier)
 			out, err := cmd.Output()
 			timedOut := ctx.Err() != nil
 			if err != nil && !timedOut {
@@ -217,6 +218,7 @@ func c36FinalizeWorker() {
 	ahead, _ := strconv.Atoi(os.Args[3])
 	shard, _ := strconv.Atoi(os.Args[4])
 	shards, _ := strconv.Atoi(os.Args[5])
+	thorough := os.Getenv("VERIF_TIER") == "thorough"
 
 	w := world.New(world.Options{Viper: map[string]any{
 		"server_chain.lfb_ticket.ahead":           ahead,
@@ -255,7 +257,7 @@ func c36FinalizeWorker() {
 				twice = append(twice, r, r)
 			}
 			scheds = append(scheds, once)
-			if mi == 0 {
+			if mi == 0 && (ahead == 5 || thorough) {
 				scheds = append(scheds, twice)
 				for skip := 1; skip <= maxCall; skip++ {
 					var s []int
